@@ -906,6 +906,64 @@ func init() {
 				w.X.B64[st.S[0]].Regions = []int{ri}
 			}
 		}})
+	// writer faults: a destination that fails at byte k. With a nil error the caller relies on
+	// "the byte count equals the returned n" (C18), so a swallowed fault is a mis-count.
+	reg(&opDef{name: "wfault64", tag: "C18",
+		gen: func(w *World, r *Rng) (Step, bool) {
+			return Step{S: []int{w.nonEmpty64(r)}, A: []uint64{r.U64()}}, true
+		},
+		valid: func(w *World, st *Step) bool { return slots64OK(w, st, 1, 1) },
+		exec: func(w *World, st *Step) {
+			src := w.X.B64[st.S[0]]
+			var data []byte
+			var err error
+			if w.try("C18", func() { data, err = src.BM.ToBytes() }) || err != nil {
+				return
+			}
+			var offs []int
+			if len(data) <= 1500 {
+				for k := 0; k < len(data); k++ {
+					offs = append(offs, k)
+				}
+				w.probe("writer64-offsets-exhaustive")
+			} else {
+				r := NewRng(st.A[0])
+				for k := 0; k < 48; k++ {
+					offs = append(offs, k)
+				}
+				samples := 300
+				if len(data) > 256<<10 {
+					samples = 24
+				}
+				for i := 0; i < samples; i++ {
+					offs = append(offs, r.Intn(len(data)))
+				}
+				for d := 1; d <= 16 && d <= len(data); d++ {
+					offs = append(offs, len(data)-d)
+				}
+			}
+			for _, k := range offs {
+				for mode := simio.WShort; mode < simio.WNumModes; mode++ {
+					fw := &simio.FaultyWriter{Mode: mode, At: k}
+					var n int64
+					var werr error
+					if w.try("C18", func() { n, werr = src.BM.WriteTo(fw) }) {
+						return
+					}
+					if !fw.Fired {
+						continue
+					}
+					w.St.Faults["writer64-"+simio.WModeNames[mode]]++
+					if werr == nil {
+						w.fail("C18", "byte-accounting", "64-bit WriteTo returned nil and a count the failed destination never received", fmt.Sprintf("destination failed (%s) at byte %d of %d: WriteTo returned n=%d, err=nil, destination holds %d bytes", simio.WModeNames[mode], k, len(data), n, len(fw.Data)))
+						w.disk("64:WriteTo", simio.WModeNames[mode], "-", "swallowed")
+						return
+					}
+					w.disk("64:WriteTo", simio.WModeNames[mode], "-", "error")
+				}
+			}
+		}})
+
 	reg(&opDef{name: "trunc64", tag: "C18",
 		gen: func(w *World, r *Rng) (Step, bool) {
 			return Step{S: []int{w.slot64(r)}, A: []uint64{uint64(r.Intn(4)), r.U64()}}, true
